@@ -5,6 +5,7 @@
 (*   [k |-> "ddim", name, ref]                [C] = [A] / [B]                            *)
 (*   [k |-> "unit", name, scale, ref, sym, alias]   c = 2 * a = csym = calias             *)
 (*   [k |-> "alias", of, name]                @alias c = c2                              *)
+(*   [k |-> "context", name, param, default, src, dst, coef]   @context(p=3/2) ctx ... @end *)
 (*   [k |-> "comment"], [k |-> "blank"]       no meaning                                 *)
 (*   [k |-> "bad", why]                       an ill-formed line (several kinds)          *)
 (* Load is a fold of per-kind adders into the tables of Registry.tla plus a spelling      *)
@@ -12,7 +13,7 @@
 (* which is why the order of unit and prefix lines cannot matter.                         *)
 EXTENDS Registry
 
-EmptyTables == [units |-> <<>>, ddims |-> <<>>, prefixes |-> <<>>, spell |-> <<>>, sym |-> <<>>]
+EmptyTables == [units |-> <<>>, ddims |-> <<>>, prefixes |-> <<>>, spell |-> <<>>, sym |-> <<>>, ctxs |-> <<>>]
 Ext(f, k, v) == [x \in DOMAIN f \cup {k} |-> IF x = k THEN v ELSE f[x]]
 AddLine(t, ln) ==
     CASE ln.k = "prefix" -> [t EXCEPT !.prefixes = Ext(@, ln.name, ln.value)]
@@ -24,6 +25,7 @@ AddLine(t, ln) ==
                                     !.spell = Ext(Ext(Ext(@, ln.name, ln.name), ln.sym, ln.name), ln.alias, ln.name),
                                     !.sym = Ext(@, ln.name, ln.sym)]
       [] ln.k = "alias" -> [t EXCEPT !.spell = Ext(@, ln.name, ln.of)]
+      [] ln.k = "context" -> [t EXCEPT !.ctxs = Ext(@, ln.name, [default |-> ln.default, src |-> ln.src, dst |-> ln.dst, coef |-> ln.coef])]
       [] OTHER -> t                                      \* comments and blank lines mean nothing
 RECURSIVE LoadFrom(_, _)
 LoadFrom(t, lines) == IF lines = <<>> THEN t ELSE LoadFrom(AddLine(t, Head(lines)), Tail(lines))
@@ -45,5 +47,9 @@ RegOf(t) == [units |-> t.units, ddims |-> t.ddims]
 ObsUnit(t, n) == [dim |-> HashKey(DimDecl(RegOf(t), Single(n, One))), f |-> FactorDecl(RegOf(t), Single(n, One)),
                   root |-> HashKey(RootUnitsDecl(RegOf(t), Single(n, One)))]
 ObsOfFile(lines) == LET t == Load(lines) IN
-    [units |-> [n \in DOMAIN t.units |-> ObsUnit(t, n)], spell |-> t.spell, prefixes |-> t.prefixes, sym |-> t.sym]
+    [units |-> [n \in DOMAIN t.units |-> ObsUnit(t, n)], spell |-> t.spell, prefixes |-> t.prefixes, sym |-> t.sym,
+     \* derived dimensions reduced to base dimensions (also through other derived dimensions with exponents)
+     ddims |-> [d \in DOMAIN t.ddims |-> HashKey(ExpandDims(RegOf(t), Single(d, One)))],
+     \* a context rule  src -> dst : coef * value * p  with its declared default: 3 [base of src] converts to
+     ctxs |-> [c \in DOMAIN t.ctxs |-> RMul(R(3), RMul(t.ctxs[c].coef, t.ctxs[c].default))]]
 =============================================================================
